@@ -119,3 +119,6 @@ var specSubOptions = map[string]int64{
 var specConnectFlags = map[string]int64{
 	"UsernameFlag": 0x80, "PasswordFlag": 0x40, "WillRetain": 0x20, "WillQoS2": 0x10, "WillQoS1": 0x08, "WillFlag": 0x04, "CleanStart": 0x02, "Reserved": 0x01,
 }
+
+// properties the specification defines as a byte restricted to 0 and 1 (booleans)
+var specBoolProps = map[int64]bool{0x01: true, 0x17: true, 0x19: true, 0x25: true, 0x28: true, 0x29: true, 0x2A: true}
